@@ -132,6 +132,47 @@ def summarize(prog, path, adt, depth=0):
     return None, "unrecognised result %s" % path_str(rt)[:120]
 
 
+def sym_summary(prog, f, adt):
+    """symbolic transition summary: run `f` on a builder whose slots are the symbols self.<slot> and parameters p2, p3, ..;
+    returns ({slot: abstract value}, None) or (None, reason).  Helpers, delegation, `..self` updates and constructors make no difference."""
+    b = prog.body(f["path"])
+    if b is None:
+        return None, "no body"
+    args = []
+    for i, tix in enumerate(f["inputs"]):
+        bi = builder_of(prog, tix)
+        if bi is not None:
+            args.append(symrun.struct(prog, bi, "self" if i == 0 or bi == adt else "p%d" % (i + 1)))
+        else:
+            args.append(symrun.Sym("p%d" % (i + 1)))
+    r = symrun.Run(prog)
+    try:
+        v = r.run(f["path"], args)
+    except absint.Unrecognised as e:
+        return None, str(e)
+    if not symrun.is_struct(v, adt):
+        return None, "returns %s" % symrun.show(v)[:80]
+    if [x for x in r.log if x[0] == "push"]:
+        return None, "pushes onto a collection"
+    return {s_: symrun.field(v, s_) for s_ in BUILDERS[adt]}, None
+
+
+def sym_from_param(v, f=None):
+    """does the abstract value come from one of the method's own parameters (possibly converted / collected), or is it MetaType::new::<..TY..>()?"""
+    S = symrun.Sym
+    x = v
+    ov = absint.opt_view(x)
+    if ov and ov[0] == "Some":
+        x = ov[1]
+    if isinstance(x, tuple) and x[:1] == ("conv",):
+        x = x[1]
+    if isinstance(x, S) and x.name.startswith("p") and x.name[1:2].isdigit():
+        return True, x.name
+    if isinstance(x, S) and x.name.startswith("MetaType<"):
+        return True, x.name
+    return False, symrun.show(v)[:80]
+
+
 def transitions(chk, prog, cfg, docs_on, only=None):
     """`only`: restrict to the methods with these names (C15 looks at the feature-gated setters only)"""
     chk.rule("R17.1", "every builder method taking and returning the builder carries all slots over from self except the slot it is "
@@ -161,30 +202,40 @@ def transitions(chk, prog, cfg, docs_on, only=None):
                 continue  # private helper: judged through the public methods that delegate to it
             chk.unrecognised("R17.1", key, b.where(), "builder method %s is not in the setter table (a new transition needs a rule)" % name, cfg)
             continue
-        summ, why = summarize(prog, f["path"], bo)
+        summ, why = sym_summary(prog, f, bo)
         if summ is None:
             chk.unrecognised("R17.1", key, b.where(), "unrecognised builder transition (%s)" % why, cfg)
             continue
-        changed = {}
-        for s in slots:
-            v = summ[s]
-            ap = paths.access_path(b, v) if v is not None else None
-            if ap is not None and ap[0] in (SELF, ("var", 1, b.names.get(1))) and ap[1] == "." + s and not mir.calls_in(v):
-                continue
-            changed[s] = v
+        changed = {s_: v for s_, v in summ.items() if v != symrun.Sym("self." + s_)}
         is_gated = name == "docs"
         if is_gated and not docs_on:
             chk.expect(not changed, "R17.1", key, b.where(), "without the docs feature `docs` must be the identity; writes: %s" % sorted(changed), cfg)
             continue
         ok = sorted(changed) == [want]
-        detail = "sets %s" % sorted(changed)
         if ok:
             v = changed[want]
-            okv, why = set_value_ok(prog, b, f, v, want)
+            okv, src = sym_from_param(v)
+            if okv and name in ("ty", "compact") and b.arg_count == 1:
+                fg = [x["name"] for x in f["generics"] if x["kind"] == "type"]
+                wantty = "MetaType<%s>" % fg[-1] if name == "ty" else "MetaType<parity_scale_codec::compact::Compact<%s>>" % fg[-1]
+                okv = src == wantty
+                src += "" if okv else " (required: %s)" % wantty
+            elif okv and name in ("ty", "compact"):
+                okv = not src.startswith("MetaType<")
+            elif okv and src.startswith("MetaType<"):
+                okv = False
+            # vector slots take the parameter as it is; optional slots wrap it in Some
+            is_opt = absint.opt_view(v) is not None
+            if okv and want in ("type_params", "docs", "fields"):
+                okv = not is_opt
+            elif okv:
+                okv = is_opt
+            if not okv and want == "fields" and v == symrun.Sym("p2.fields"):
+                okv, src = True, "the fields of the given FieldsBuilder"
             ok = okv
-            detail = "sets %s := %s%s" % (want, path_str(v)[:120], "" if okv else " -- " + why)
+            detail = "sets %s := %s%s" % (want, symrun.show(v)[:120], "" if okv else " -- the new value must come from the method's parameter (%s)" % src)
         else:
-            wrong = {k: (path_str(v)[:80] if v is not None else None) for k, v in changed.items() if k != want}
+            wrong = {k_: symrun.show(v)[:80] for k_, v in changed.items() if k_ != want}
             detail = "method `%s` must change exactly slot `%s`; it also changes / mis-carries %s" % (name, want, wrong) if wrong else \
                 "method `%s` does not set slot `%s`" % (name, want)
         chk.expect(ok, "R17.1", key, b.where(), detail, cfg)
@@ -234,40 +285,44 @@ def set_value_ok(prog, b, f, v, slot):
 
 
 def initial_states(chk, prog, cfg):
-    chk.rule("R17.0", "builders start empty: every function that creates a builder without taking one (Default::default, new, Type::builder*, "
-             "Field::builder, Fields::unit/named/unnamed, Variants::new) leaves every slot None / empty, except VariantBuilder::new's name := its argument")
+    chk.rule("R17.0", "builders start empty, decided on symbolic runs: every PUBLIC function (or trait method) that creates a builder without taking one "
+             "(Default::default, new, Type::builder*, Field::builder, Fields::unit/named/unnamed, Variants::new) yields a builder whose every slot is None / empty, "
+             "except VariantBuilder::new whose name is its argument (private helpers are judged through the public functions that use them)")
     n = 0
     for f in prog.fn_list:
         if f["kind"] not in ("AssocFn", "Fn") or "output" not in f:
             continue
         bo = builder_of(prog, f["output"])
-        if bo is None or any(builder_of(prog, i) == bo for i in f["inputs"] if prog.ty(i)["k"] in ("adt", "ref")):
+        if bo is None or any(builder_of(prog, i) is not None for i in f["inputs"] if prog.ty(i)["k"] in ("adt", "ref")):
+            continue
+        if f.get("vis") != "pub" and "impl_trait" not in f:
             continue
         b = prog.body(f["path"])
         if b is None:
             continue
-        rt = b.return_term()
         key = "%s%s" % (mir.strip_generics(f["path"]).replace("scale_info::", ""), _form_suffix(prog, f) if "impl_self_ty" in f else "")
         n += 1
-        # delegation to another creator (Type::builder() -> TypeBuilder::default())
-        if rt[0] == "call" and not rt[2] and (rt[1]["decl"].endswith("::default") or rt[1]["name"].endswith("::new") or rt[1]["decl"].endswith("Default::default")):
-            chk.ok("R17.0", "initial:" + key, b.where(), "delegates to %s" % rt[1]["name"], cfg)
+        args = [symrun.Sym("p%d" % (k + 1)) for k in range(b.arg_count)]
+        r = symrun.Run(prog)
+        try:
+            v = r.run(f["path"], args)
+        except absint.Unrecognised as e:
+            chk.unrecognised("R17.0", "initial:" + key, b.where(), "cannot interpret the creator: %s" % e, cfg)
             continue
-        if not is_adt_agg(rt, bo):
-            chk.unrecognised("R17.0", "initial:" + key, b.where(), "creator does not end in a %s{..} aggregate: %s" % (bo.split("::")[-1], path_str(rt)[:100]), cfg)
+        if not symrun.is_struct(v, bo):
+            chk.unrecognised("R17.0", "initial:" + key, b.where(), "creator returns %s" % symrun.show(v)[:100], cfg)
             continue
         bad = []
         for sl in BUILDERS[bo]:
-            v = agg_field(rt, sl)
-            empty = (is_adt_agg(v, "core::option::Option", "None") or is_call(v, "alloc::vec::Vec::new", nargs=0)
-                     or (v[0] == "call" and not v[2] and v[1]["decl"] == "core::default::Default::default"))
+            x = symrun.field(v, sl)
+            empty = absint.opt_view(x) == ("None",) or x == symrun.EMPTY_VEC
             if bo.endswith("VariantBuilder") and sl == "name" and f["name"] == "new":
-                if v != cr.arg(b, 1):
-                    bad.append("%s := %s" % (sl, path_str(v)[:40]))
+                if x != symrun.Sym("p1"):
+                    bad.append("%s := %s" % (sl, symrun.show(x)[:40]))
                 continue
             if not empty:
-                bad.append("%s := %s" % (sl, path_str(v)[:40]))
-        chk.expect(not bad, "R17.0", "initial:" + key, b.where(), "non-empty initial slots: %s" % bad if bad else "all slots empty", cfg)
+                bad.append("%s := %s" % (sl, symrun.show(x)[:40]))
+        chk.expect(not bad and not r.log, "R17.0", "initial:" + key, b.where(), "non-empty initial slots: %s" % bad if bad else "all slots empty", cfg)
     chk.floor("R17.0", n, 8, "builder creators: TypeBuilder::default, Type::builder, builder_portable, FieldBuilder::default/new, Field::builder, "
               "VariantBuilder::new, FieldsBuilder::default, Fields::unit/named/unnamed, Variants::new/default")
 
@@ -567,5 +622,7 @@ def phantom(chk, prog, cfg):
         p = mir.strip_generics(b.path)
         t = b.rvalue_term(rv)
         fv = agg_field(t, "fields")
-        chk.expect(p == "<scale_info::build::FieldsBuilder as core::default::Default>::default" and is_call(fv, "alloc::vec::Vec::new", nargs=0),
+        priv_ = prog.fns.get(b.path, {}).get("vis") != "pub" and "impl_trait" not in prog.fns.get(b.path, {})
+        chk.expect((p == "<scale_info::build::FieldsBuilder as core::default::Default>::default" or priv_) and
+                   (is_call(fv, "alloc::vec::Vec::new", nargs=0) or (fv is not None and fv[0] == "call" and not fv[2] and fv[1]["decl"].endswith("default"))),
                    "R17.4", "FieldsBuilder-built-in:" + p, b.where(bb), "FieldsBuilder{fields: %s} in %s" % (path_str(fv)[:40], p), cfg)
